@@ -13,10 +13,11 @@ LEVEL_TEXT = ("Relational monitoring of four runs of the same input: parse under
               "most max_errors; IMMEDIATE raises the first of them; error_level is restored; IGNORE/WARN/RAISE generate the "
               "same SQL; RAISE/IMMEDIATE raise UnsupportedError exactly when WARN logged a warning.")
 LEVEL_TEXT += (" Generation levels are also decided over every dialect's harvested statements written to rotating target dialects.")
+LEVEL_TEXT += (' Limits include 0; an error rendered in the message past the limit is a violation on the parser and on the generator side.')
 LEVEL_NOTE = "inputs on which the library raises an internal exception are C05's subject and are skipped here (counted)"
 TECHNIQUE = "runtime monitoring: relational oracle over four runs per input with log capture"
-RULE = ("valid, single-edit-mutated and multi-statement inputs x sampled dialects x max_errors in {1,3,10}; generated trees x "
-        "sampled (read, write) dialect pairs x max_unsupported in {1,3}; non-trivial = input with >= 1 recorded error or "
+RULE = ("valid, single-edit-mutated and multi-statement inputs x sampled dialects x max_errors in {0,1,2,3,10}; generated trees x "
+        "sampled (read, write) dialect pairs x max_unsupported in {0,1,3}; non-trivial = input with >= 1 recorded error or "
         ">= 1 unsupported message; distinct = distinct (text, dialect, max_errors)")
 ASSUMPTIONS = ["TokenError is a tokenizer outcome and only has to be identical at all levels"]
 SPEC = {
@@ -187,6 +188,11 @@ def check_parse_levels(ctx, sql, d, max_errors, parsers, kind):
             if k < max_errors and not shown:
                 viol("raise-message-misses-error", index=k, description=desc)
                 return
+            if k >= max_errors and shown and not any(
+                    (x.get("description"), x.get("line"), x.get("col")) == (er.get("description"), er.get("line"), er.get("col")) for x in errs[:max_errors]):
+                # "at most max_errors rendered in the message": an error past the limit (and not textually equal to one within it) is rendered
+                viol("raise-message-renders-more-than-max", index=k, max_errors=max_errors, n_errors=len(errs), description=desc)
+                return
         # single statement: the exception carries every error WARN logged
         if ";" not in sql and len(wa[1]) == 1 and len(errs) != nlogged:
             viol("raise-errors-count-differs-from-warn", raise_errors=len(errs), warn_logged=nlogged)
@@ -274,6 +280,11 @@ def check_generate_levels(ctx, tree, read, write, max_unsupported, reuse=False):
         more = nwarn - max_unsupported
         if more > 0 and f"... and {more} more" not in ra[1]:
             viol("raise-message-more-count", warn_logged=nwarn, msg_tail=ra[1][-60:])
+            return
+        wmsgs = [str(r[1]) for r in wa[2] if r[0] == "WARNING" and len(r) > 1 and len(str(r[1])) > 8]
+        rendered = sorted({m for m in wmsgs if m in ra[1] and not any(m != o and m in o for o in wmsgs)})
+        if len(rendered) > max_unsupported:
+            viol("raise-message-renders-more-than-max", max_unsupported=max_unsupported, rendered=rendered[:3])
 
 
 def worker(ctx):
@@ -299,7 +310,7 @@ def worker(ctx):
             inputs.insert(rng.randrange(len(inputs)), "SELECT * FROM a, " + "(" * 400 + "SELECT 1")
         for text in inputs:
             for d in rng.sample(dialects, 3):
-                me = rng.choice([1, 3, 10])
+                me = rng.choice([0, 1, 2, 3, 10])
                 check_parse_levels(ctx, text, d, me, parsers, "fresh" if rng.random() < 0.5 else "reused")
         # generation
         for _ in range(3):
@@ -367,7 +378,7 @@ def generation_probes(ctx):
             tree = sqlglot.parse_one(sql, read=read)
         except Exception:
             continue
-        for mu in (1, 3):
+        for mu in (0, 1, 3):
             check_generate_levels(ctx, tree, read, write, mu)
             ctx.count("unsupported_seed_cases")
         # history: a supported tree right after an unsupported one on the same long-lived generators, and back
